@@ -87,7 +87,7 @@ func New(h func() hash.Hash, key []byte) hash.Hash { panic(0) }`,
 func Read(b []byte) (n int, err error) { panic(0) }`,
 	"crypto/ecdsa": `package ecdsa
 import "math/big"
-type PublicKey struct { X, Y *big.Int }
+type PublicKey struct { Curve interface{}; X, Y *big.Int }
 type PrivateKey struct { PublicKey; D *big.Int }`,
 	"math/big": `package big
 type Int struct{ opaque int }
@@ -115,6 +115,7 @@ func (m *RWMutex) RLock() { panic(0) }
 func (m *RWMutex) RUnlock() { panic(0) }`,
 	"math": `package math
 const Ln2 = 0.693147180559945309417232121458176568
+const MaxUint32 = 1<<32 - 1
 func Log(x float64) float64 { panic(0) }`,
 	"container/list": `package list
 type Element struct { Value interface{} }
@@ -184,7 +185,7 @@ func (p *PublicKey) SerializeCompressed() []byte { panic(0) }
 func (p *PublicKey) SerializeUncompressed() []byte { panic(0) }
 func (p *PublicKey) SerializeHybrid() []byte { panic(0) }`,
 	"github.com/gcash/bchd/wire": `package wire
-import ("io"; "github.com/gcash/bchd/chaincfg/chainhash")
+import ("bytes"; "github.com/gcash/bchd/chaincfg/chainhash")
 type BloomUpdateType uint8
 const (
 	BloomUpdateNone BloomUpdateType = 0
@@ -209,8 +210,11 @@ type MsgBlock struct { Header BlockHeader; Transactions []*MsgTx }
 type MsgMerkleBlock struct { Header BlockHeader; Transactions uint32; Hashes []*chainhash.Hash; Flags []byte }
 func (msg *MsgMerkleBlock) AddTxHash(hash *chainhash.Hash) error { panic(0) }
 func MaxBlockPayload() uint32 { panic(0) }
-func ReadVarInt(r io.Reader, pver uint32) (uint64, error) { panic(0) }
-func WriteVarInt(w io.Writer, pver uint32, val uint64) error { panic(0) }
+func ReadVarInt(r *bytes.Buffer, pver uint32) (uint64, error) { panic(0) }
+func WriteVarInt(w *bytes.Buffer, pver uint32, val uint64) error { panic(0) }
+func (o *OutPoint) Serialize(w *bytes.Buffer) error { panic(0) }
+func (msg *MsgBlock) BlockHash() chainhash.Hash { panic(0) }
+func NewMsgBlock(blockHeader *BlockHeader) *MsgBlock { panic(0) }
 func VarIntSerializeSize(val uint64) int { panic(0) }`,
 	"github.com/gcash/bchd/txscript": `package txscript
 type ScriptClass byte
@@ -250,9 +254,13 @@ import ("github.com/gcash/bchutil")
 type Filter struct{ opaque int }
 func GetMatchedIndices(block *bchutil.Block, filter *Filter) map[int]bool { panic(0) }`,
 	"github.com/gcash/bchutil/gcs": `package gcs
+import "fmt"
 const KeySize = 16
-type Filter struct{ opaque int }
-func BuildGCSFilter(P uint8, M uint64, key [KeySize]byte, data [][]byte) (*Filter, error) { panic(0) }`,
+var ErrNTooBig = fmt.Errorf("N is too big to fit in uint32")
+var ErrPTooBig = fmt.Errorf("P is too big to fit in uint32")
+type Filter struct { n uint32; p uint8; modulusNP uint64; filterData []byte }
+func BuildGCSFilter(P uint8, M uint64, key [KeySize]byte, data [][]byte) (*Filter, error) { panic(0) }
+func (f *Filter) NBytes() ([]byte, error) { panic(0) }`,
 }
 
 // imported struct types the translation does not look into (objects behind a type parameter X_t; their
@@ -274,7 +282,6 @@ var abstract3 = map[string]bool{
 	"github.com/gcash/bchutil.Tx":              true,
 	"github.com/gcash/bchutil.Block":           true,
 	"github.com/gcash/bchutil/bloom.Filter":    true,
-	"github.com/gcash/bchutil/gcs.Filter":      true,
 	"encoding/base64.Encoding":                 true,
 	"hash.Hash":                                true,
 	"sort.Interface":                           true,
@@ -286,6 +293,14 @@ var mutating3 = map[string]bool{
 	"List.PushBack": true, "List.Remove": true,
 	"Buffer.Grow": true, "Buffer.Write": true, "Buffer.WriteByte": true, "Buffer.Read": true,
 	"Hash.Write": true,
+	"MsgMerkleBlock.AddTxHash": true,
+	"Int.Add": true, "Int.Mod": true,
+}
+
+// abstract functions / methods that change the object behind one of their pointer arguments: the new
+// object is returned after the results (and after the receiver)
+var mutArgs3 = map[string][]int{
+	"wire_ReadVarInt": {0}, "wire_WriteVarInt": {0}, "wire_OutPoint_Serialize": {0},
 }
 
 // ---------------------------------------------------------------------------
@@ -431,8 +446,10 @@ const header3 = `(* GENERATED by harness/cmd/gotrans (third mode) from the Go so
      that change the object).  They are ASSUMED not to panic;
    - a self-recursive function is a Fixpoint on an extra first parameter fuel:
      Panic 9 when it is exhausted (each call passes fuel - 1);
-   - map[K]V is an association list (the functions Go3.map_get etc.); the iteration order of a range over
-     a map is given by the Section variable map_order (any permutation).
+   - map[K]V is option (association list) (Go3.mget etc.; None = nil map); the iteration order of
+     a range over a map is given by the Section variable map_order (any permutation);
+     sort.Slice / sort.Sort are Section variables (any function; the tie theorems assume what they
+     need of them: a sorted permutation).
    Tie/Kernels3_*.v prove these functions equal to the hand-written models. *)
 From Coq Require Import List NArith ZArith Bool.
 From BU Require Import Lib.Bytes Gen.Kernels Gen.Kernels2.
@@ -465,7 +482,17 @@ Fixpoint map_del {K V} (eqb : K -> K -> bool) (m : list (K * V)) (k : K) : list 
   match m with [] => [] | (k', v) :: t => if eqb k' k then map_del eqb t k else (k', v) :: map_del eqb t k end.
 Definition map_set {K V} (eqb : K -> K -> bool) (m : list (K * V)) (k : K) (v : V) : list (K * V) :=
   (k, v) :: map_del eqb m k.
-Definition map_len {K V} (m : list (K * V)) : Z := Z.of_nat (List.length m).
+(* a map value is option (list (K * V)): None is the nil map (reads as empty, writing to it is Panic 5) *)
+Definition mget {K V} (eqb : K -> K -> bool) (m : option (list (K * V))) (k : K) : option V :=
+  match m with Some l => map_get eqb l k | None => None end.
+Definition mset {K V} (eqb : K -> K -> bool) (m : option (list (K * V))) (k : K) (v : V) : res (option (list (K * V))) :=
+  match m with Some l => Ok (Some (map_set eqb l k v)) | None => Panic 5 end.
+Definition mdel {K V} (eqb : K -> K -> bool) (m : option (list (K * V))) (k : K) : option (list (K * V)) :=
+  match m with Some l => Some (map_del eqb l k) | None => None end.
+Definition mlen {K V} (m : option (list (K * V))) : Z :=
+  match m with Some l => Z.of_nat (List.length l) | None => 0%Z end.
+Definition mentries {K V} (m : option (list (K * V))) : list (K * V) :=
+  match m with Some l => l | None => [] end.
 
 (* for init; cond; post { body } with a general condition: a while loop *)
 Definition while_ {S} := @Go.whileM S.
@@ -487,9 +514,12 @@ Definition copy_ {A} (dst src : list A) : list A :=
 (* binary.BigEndian.Uint32 / PutUint32 on slices seen as values *)
 Definition be_uint32 (b : list N) : res N :=
   match b with b0 :: b1 :: b2 :: b3 :: _ => Ok (((b0 * 256 + b1) * 256 + b2) * 256 + b3) | _ => Panic 1 end.
-Definition put_be32 (dst : list N) (v : N) : res (list N) :=
-  if (Z.of_nat (List.length dst) <? 4)%Z then Panic 1 else
-  Ok ([(v / 16777216) mod 256; (v / 65536) mod 256; (v / 256) mod 256; v mod 256] ++ List.skipn 4 dst).
+Definition put_be32 (dst : list N) (off : Z) (v : N) : res (list N) :=
+  if ((off <? 0) || (Z.of_nat (List.length dst) <? off))%Z then Panic 2 else
+  if (Z.of_nat (List.length dst) - off <? 4)%Z then Panic 1 else
+  let o := Z.to_nat off in
+  Ok (List.firstn o dst ++ [(v / 16777216) mod 256; (v / 65536) mod 256; (v / 256) mod 256; v mod 256]
+      ++ List.skipn (o + 4) dst).
 
 End Go3.
 
